@@ -127,20 +127,27 @@ def check(ctx):
 
     R4 = ctx.rule("R4", "configured numbers reach divisions / admission bounds only when non-zero; a window start before the clock's origin does not deny forever")
     nonzero_limit_guard(ctx, R4)
-    ra = prog.must_body("acmed::endpoint::RateLimit::request_allowed")
-    cs = ra.calls_to("std::time::Instant::checked_sub")
-    ctx.floor(R4, "checked_sub in request_allowed", len(cs), 1)
-    from ..util import assigns_const_to
-    false_blocks = assigns_const_to(ra, 0, lambda c: c.get("bool") is False)
-    for c in cs:
-        for t in try_edges(ra, [c.dest["l"]]):
-            for tg in t["err"]:
-                # from the None edge, a `return false` must not be unconditional: some path reaches the count comparison
-                r = ra.reachable([tg])
-                cmp_blocks = [i for i in ra.live_blocks() for st in ra.blocks[i]["stmts"] if st["s"] == "assign" and st["rv"]["k"] == "binop" and st["rv"]["op"] in ("Ge", "Gt", "Lt", "Le")]
-                ctx.require(R4, bool(set(cmp_blocks) & r), c.where(),
-                            "when now - period is not representable the request is still compared with the log size (not denied unconditionally, which hangs the first request)",
-                            ["RateLimit::request_allowed", "huge-period-denies-forever"])
+    from .guards import body_family
+    fam = body_family(prog, "acmed::endpoint::RateLimit::request_allowed")
+    n_cs = 0
+    for ra in fam:
+        cs = ra.calls_to("std::time::Instant::checked_sub")
+        n_cs += len(cs)
+        rets = set(ra.return_blocks())
+        for c in cs:
+            for t in try_edges(ra, [c.dest["l"]]):
+                for tg in t["err"]:
+                    # from the None edge, the answer must still depend on the log (its length), not be a constant refusal
+                    r = ra.reachable([tg])
+                    uses_log = any(x.bb in r for x in ra.calls if x.is_("alloc::vec::Vec::len", "core::slice::<impl [T]>::len", "core::iter::traits::iterator::Iterator::count")
+                                   and ("acmed::endpoint::RateLimit", "query_log") in arg_origins(x, 0).fields)
+                    const_false = [i for i in r for st in ra.blocks[i]["stmts"] if st["s"] == "assign" and st["lhs"]["l"] == 0 and not st["lhs"]["p"]
+                                   and st["rv"]["k"] == "use" and (op_const(st["rv"]["op"]) or {}).get("bool") is False]
+                    direct = [i for i in const_false if i in ra.reachable([tg], removed_nodes=[x.bb for x in ra.calls if x.is_("alloc::vec::Vec::len", "core::slice::<impl [T]>::len")])]
+                    ctx.require(R4, uses_log and not direct, c.where(),
+                                "when now - period is not representable the request is still compared with the log size (not denied unconditionally, which hangs the first request)",
+                                ["RateLimit::request_allowed", "huge-period-denies-forever"])
+    ctx.floor(R4, "checked_sub in the admission test", n_cs, 1)
     # limiter loop makes progress only if admission is possible: number >= 1 (guard above) — and MIN sleep > 0
     mn = prog.const("acmed::MIN_RATE_LIMIT_SLEEP_MILISEC").get("int", 0)
     mx = prog.const("acmed::MAX_RATE_LIMIT_SLEEP_MILISEC").get("int", 0)
